@@ -254,8 +254,10 @@ theorem wf_put {K V : Type} [DecidableEq K] (t : Tbl K V) (h : t.WF) (k : K) (v 
   intro k' hk'
   simp only [Tbl.put, upd] at hk' ⊢
   by_cases e : k' = k
-  · subst e; exact List.mem_cons_self
-  · simp [e] at hk'; exact List.mem_cons_of_mem _ (h k' hk')
+  · subst e; by_cases hm : k' ∈ t.dom <;> simp [hm]
+  · simp [e] at hk'
+    have := h k' hk'
+    by_cases hm : k ∈ t.dom <;> simp [hm, this]
 
 theorem wf_del {K V : Type} [DecidableEq K] (t : Tbl K V) (h : t.WF) (k : K) : (t.del k).WF := by
   intro k' hk'
